@@ -842,7 +842,7 @@ func run(cfg Config, scns []Scenario, tier, only string, nproc int, limit time.D
 			"max_choice_depth":              total.MaxChoices,
 			"deadline_hit":                  capped,
 			"hb_pruned_nodes":               total.Pruned,
-			"explanation":                   "states = decision nodes of the schedule tree (scheduling/environment choice points with >1 enabled transition) visited; transitions = scheduler steps fired; every execution ran the real code, so traces validated = executions",
+			"explanation":                   "states = decision nodes of the schedule tree (scheduling/environment choice points with >1 enabled transition) expanded; transitions = scheduler steps fired; every execution ran the real code, so traces validated = executions; hb_pruned_nodes = decision nodes not expanded because a node with the same happens-before fingerprint (same partial order of steps, hence same state) had been expanded with at most as many preemptions spent (scenarios marked hb_reduction)",
 		}
 		for k, v := range total.Counts {
 			switch k {
